@@ -145,7 +145,7 @@ inductive MErr where
 variable {N : Type} [NumOps N]
 
 /-- `newNumberFormulaArg` -/
-def mkNum (x : N) : Arg N := if isNaN x then .err formulaErrorNUM else .num x false
+def mkNum (x : N) : Arg N := if isNaN x || isInf x then .err formulaErrorNUM else .num x false
 
 /-- `newBoolFormulaArg` -/
 def mkBool (b : Bool) : Arg N := .num (if b then one else zero) true
@@ -166,8 +166,8 @@ def numberField : Arg N → N
 def toNumber : Arg N → Except EMsg N
   | .str s => match parse s with
     | none => .error (.parseFloat s)
-    | some x => if isNaN x then .error (.lit formulaErrorNUM) else .ok x
-  | .num x _ => if isNaN x then .error (.lit formulaErrorNUM) else .ok x
+    | some x => if isNaN x || isInf x then .error (.lit formulaErrorNUM) else .ok x
+  | .num x _ => if isNaN x || isInf x then .error (.lit formulaErrorNUM) else .ok x
   | .err _ => .ok zero
 
 /-- `x.ToNumber().Number` -/
@@ -183,6 +183,15 @@ def liftE {α : Type} : Except EMsg α → Except MErr α
 /-- `if opd.Value() == "" { opd = newNumberFormulaArg(0) }` -/
 def blank0 (a : Arg N) : Arg N := if value a = [] then mkNum zero else a
 
+/-- prefix minus and postfix %: a blank operand counts as 0, an error operand propagates, then
+`ToNumber` (failing on text that is not numeric) and the arithmetic -/
+def unaryNum (f : N → N) (a : Arg N) : Except MErr (Arg N) :=
+  match blank0 a with
+  | .err m => .error (.msg (.lit m))
+  | a' => do
+    let x ← liftE (toNumber a')
+    pure (mkNum (f x))
+
 /-- calcAdd / calcMultiply / calcPow (and the tail of calcSubtract): push one number -/
 def arith (f : N → N → N) (r l : Arg N) : Except MErr (List (Arg N)) := do
   let a ← liftE (toNumber l)
@@ -196,7 +205,10 @@ def calcDiv (r l : Arg N) : Except MErr (List (Arg N)) := do
   pure [mkNum (div a b)]
 
 def calcSubtract (r l : Arg N) : Except MErr (List (Arg N)) :=
-  arith sub (blank0 r) (blank0 l)
+  match blank0 r, blank0 l with
+  | .err m, _ => .error (.msg (.lit m))
+  | _, .err m => .error (.msg (.lit m))
+  | r', l' => arith sub r' l'
 
 /-- `calcCompare`: numbers sort before text and text before logical values; numbers are compared
 numerically (`<`, `>`), text by `strings.Compare` of the upper-cased strings (ASCII letters in
@@ -232,7 +244,12 @@ def calcEqual (r l : Arg N) : Bool :=
 /-- body of each function named in the `tokenCalcFunc` map: the values it pushes (top first) -/
 def runCalcFn (fn : CalcFn) (r l : Arg N) : Except MErr (List (Arg N)) :=
   match fn with
-  | .calcPow => arith pow r l
+  | .calcPow => do
+    let a ← liftE (toNumber l)
+    let b ← liftE (toNumber r)
+    if isZero a && isZero b then throw (.msg (.lit formulaErrorNUM))
+    if isZero a && lt b zero then throw (.msg (.lit formulaErrorDIV))
+    pure [mkNum (pow a b)]
   | .calcMultiply => arith mul r l
   | .calcAdd => arith add r l
   | .calcDiv => calcDiv r l
@@ -249,7 +266,7 @@ def calculate (opd : List (Arg N)) (opt : Tok) : Except MErr (List (Arg N)) := d
   let opd1 ← (if opt.isPrefixMinus then
       match opd with
       | [] => .error .invalidFormula
-      | x :: rest => pure (mkNum (sub zero (toNumberField x)) :: rest)
+      | x :: rest => do let v ← unaryNum (fun y => sub zero y) x; pure (v :: rest)
     else pure opd : Except MErr (List (Arg N)))
   let opd2 ← (if opt.isInfixMinus then
       match opd1 with
@@ -416,9 +433,11 @@ def parseTokenCore (env : Str → Option (CellArg N)) (tok : Tok) (st : State N)
     else pure (opd, opt) : Except MErr (State N))
   let opt := if tok = .lpar then tok :: opt else opt
   let (opd, opt) ← (if tok = .rpar then closeParen opt opd else pure (opd, opt) : Except MErr (State N))
-  let opd := (match tok, opd with
-    | .postfixOp _, x :: rest => mkNum (div (numberField x) (ofNat percentDivisor)) :: rest
-    | _, o => o)
+  let opd ← (match tok, opd with
+    | .postfixOp _, x :: rest => do
+      let v ← unaryNum (fun y => div y (ofNat percentDivisor)) x
+      pure (v :: rest)
+    | _, o => pure o : Except MErr (List (Arg N)))
   let opd := if isOperand tok then tokenToArg tok :: opd else opd
   pure (opd, opt)
 
@@ -597,10 +616,14 @@ variable {N : Type} [NumOps N]
 /-- what `calculate` does for one binary operator on (left, right), single-valued -/
 def applyBin (op : Op) (l r : Arg N) : Except MErr (Arg N) :=
   match op with
-  | .sub => do
-    let a ← liftE (toNumber (blank0 l))
-    let b ← liftE (toNumber (blank0 r))
-    pure (mkNum (sub a b))
+  | .sub =>
+    match blank0 r, blank0 l with
+    | .err m, _ => .error (.msg (.lit m))
+    | _, .err m => .error (.msg (.lit m))
+    | r', l' => do
+      let a ← liftE (toNumber l')
+      let b ← liftE (toNumber r')
+      pure (mkNum (sub a b))
   | .concat =>
     match r, l with
     | .err m, _ => .error (.msg (.lit m))
@@ -620,7 +643,12 @@ def applyBin (op : Op) (l r : Arg N) : Except MErr (Arg N) :=
         | some o => pure (mkBool (f o))
         | none => .error .panic
       match op with
-      | .pow => ar pow
+      | .pow => do
+        let a ← liftE (toNumber l')
+        let b ← liftE (toNumber r')
+        if isZero a && isZero b then throw (.msg (.lit formulaErrorNUM))
+        if isZero a && lt b zero then throw (.msg (.lit formulaErrorDIV))
+        pure (mkNum (pow a b))
       | .mul => ar mul
       | .add => ar add
       | .div => do
@@ -652,8 +680,8 @@ def callValue (env : Str → Option (CellArg N)) (name : Str) (args : List (List
       | none => .error .unmodelled
       | some fn => aggregate fn cells
 
-def negate (a : Arg N) : Arg N := mkNum (sub zero (toNumberField a))
-def percent (a : Arg N) : Arg N := mkNum (div (numberField a) (ofNat percentDivisor))
+def negate (a : Arg N) : Except MErr (Arg N) := unaryNum (fun y => sub zero y) a
+def percent (a : Arg N) : Except MErr (Arg N) := unaryNum (fun y => div y (ofNat percentDivisor)) a
 
 /-- structural evaluator with excelize's own operand semantics (including the
 `--x` cancellation of parseOperatorPrefixToken) -/
@@ -665,8 +693,8 @@ def evalTree (env : Str → Option (CellArg N)) : Expr → Except MErr (Arg N)
     | none => .error (.msg (.lit formulaErrorNAME))
     | some c => pure (tokenToArg (argToTok c))
   | .neg (.neg e) => evalTree env e
-  | .neg e => do let v ← evalTree env e; pure (negate v)
-  | .pct e => do let v ← evalTree env e; pure (percent v)
+  | .neg e => do let v ← evalTree env e; negate v
+  | .pct e => do let v ← evalTree env e; percent v
   | .bin op l r => do
     let a ← evalTree env l
     let b ← evalTree env r
